@@ -4,7 +4,7 @@ from ..norm import n, P, C, V, match, find_all
 from . import layout, common
 
 ID = "C14"
-CONFIGS = {"quick": ["K0", "K1"], "thorough": ["K0", "K1", "K2", "K6", "K13"]}
+CONFIGS = {"quick": ["K0", "K1"], "thorough": ["K0", "K1", "K2", "K6", "K8", "K13"]}
 META = {
     "explanation": (
         "Static slice-window analysis on MIR paths, evaluated by constant folding for the five hash variants.  Decided: "
@@ -13,7 +13,11 @@ META = {
         "every write, every write is a window [a,b) with constant bounds whose union is exactly [0,N) -- so nothing "
         "beyond N is touched -- and the two array encoders that are handed an open-ended rest slice are summarised from "
         "their own bodies (they write only through dst.chunks_exact_mut(2) zipped with the K source bytes, hence at most "
-        "2K bytes)."
+        "2K bytes).  Every Ok path of a serializer is checked separately (a conditional extra write -- e.g. a terminator stored "
+        "through out.get_mut(N) -- is an unrecognised writer).  R-14.3 decides the outcome as a function of the buffer length "
+        "alone: each path's own conditions on out.len() are evaluated for lengths 0, N-1, N, N+1, N+2, 2N+7 and every variant; "
+        "below N only Err(BufferIsTooSmall) may be reachable, from N on only Ok -- so an over-strong debug assertion or optimiser "
+        "hint (`invariant!(out.len() == N)`) that panics for a merely larger buffer is reported."
     ),
     "trusted_base": ["rustc nightly front end and constant evaluator", "hex_simd::encode writes exactly 2*src.len() bytes into the Out slice (external contract)",
                      "core slice APIs (copy_from_slice, chunks_exact_mut, zip)"],
@@ -34,6 +38,85 @@ def run(ctx, FS):
         binary(ctx, F, envs, r1, r2)
         text(ctx, F, envs, r1, r2)
         encoders(ctx, F, r2)
+        totality(ctx, F, envs)
+
+
+def totality(ctx, F, envs):
+    """R-14.3: the outcome as a function of the buffer length alone.  Every enumerated path of the two serializers (returning or
+    diverging) is evaluated on its own conditions that depend only on out.len() and crate constants, for out.len() in
+    {0, N-1, N, N+1, N+2, 2N+7} around each advertised size N and every hash variant: a length below N must reach only
+    Err(BufferIsTooSmall) paths, a length >= N only Ok paths -- in particular no panicking path (an over-strong debug
+    assertion / optimiser hint on the length) may be feasible for a buffer that is merely larger than needed."""
+    from .. import evalx
+    r = "R-14.3"
+    ctx.rule(r, "outcome by buffer length class: len < N -> only Err(BufferIsTooSmall); len >= N -> only Ok(N); no diverging path feasible for any length (conditions on out.len() evaluated per variant)")
+    LEN = "core::slice::<impl [T]>::len"
+    for nm, sizes in (("store_into_bytes", {None: "SIZE_IN_BYTES"}), ("store_into_str_bytes", {"Empty": "LEN_IN_STR_EXCEPT_PREFIX", "WithVersion": "LEN_IN_STR"})):
+        b, S, err = layout.writer_paths(F, nm)
+        ctx.instance(r)
+        if b is None:
+            ctx.missing(r, err, cfg=F.key)
+            continue
+        evalx.set_target(F)
+        try:
+            paths = S.paths()
+        except sym.PathLimit:
+            ctx.missing(r, "path explosion in %s" % nm, cfg=F.key)
+            continue
+        bad = []
+        n_eval = 0
+        for vname, env in envs:
+            cv = {k.split(":", 1)[1].rsplit("::", 1)[-1]: v for k, v in env.items() if k.startswith("assoc:")}
+            cps = {k: v for k, v in env.items() if not k.startswith("assoc:")}
+            for mode, kname in sizes.items():
+                N = cv.get(kname)
+                if N is None:
+                    bad.append("%s: constant %s unknown" % (vname, kname))
+                    continue
+                for L in sorted({0, N - 1, N, N + 1, N + 2, 2 * N + 7}):
+                    outcomes = set()
+                    for p in paths:
+                        if p.end == "unreachable":
+                            continue
+                        feasible = True
+                        for (bb, d, taken, vals) in p.conds:
+                            e = n(d)
+                            if mode is not None and e == ("discr", P(3)) and taken != "otherwise":
+                                if S.variant(d, taken) != mode:
+                                    feasible = False
+                                    break
+                                continue
+                            if not find_all(e, lambda x: x == P(2)):
+                                continue
+
+                            def view(o, rng, L=L):
+                                # out.get(..k) / out.get_mut(..k) is Some exactly when k <= out.len()
+                                if o == ("obj", "out") and isinstance(rng, tuple) and rng[:2] == ("adt", "core::ops::RangeTo::RangeTo") and isinstance(rng[2], int):
+                                    return ("Some", ("obj", "view")) if rng[2] <= L else ("None",)
+                                raise evalx.Unknown("view")
+                            asg = {"calls": {LEN: lambda x, L=L: L, "core::slice::<impl [T]>::get_mut": view, "core::slice::<impl [T]>::get": view},
+                                   "params": {2: ("obj", "out")}, "cpath_values": cv, "cparams": cps, "symbolic": True}
+                            try:
+                                v = evalx.ev(S, F, d, asg)
+                            except (evalx.Unknown, evalx.Panics):
+                                continue  # depends on something else: unconstrained
+                            n_eval += 1
+                            if not isinstance(v, int):
+                                continue
+                            if (v in vals) if taken == "otherwise" else (v != taken):
+                                feasible = False
+                                break
+                        if not feasible:
+                            continue
+                        if p.end == "return":
+                            rt = n(p.ret)
+                            outcomes.add("Ok" if rt[0] == "agg" and rt[1].endswith("Result::Ok") else ("Err" if rt[0] == "agg" and rt[1].endswith("Result::Err") else "other"))
+                        else:
+                            outcomes.add("panic(%s)" % p.end)
+                    want = {"Err"} if L < N else {"Ok"}
+                    if outcomes != want:
+                        bad.append("%s%s: buffer length %d (advertised size %d) reaches %s; reference %s" % (vname, "/" + mode if mode else "", L, N, sorted(outcomes), sorted(want)))
+        ctx.ob(r, (nm, "outcome-by-length-class"), not bad and n_eval > 0, "; ".join(bad[:3]) or "no length condition could be evaluated", cfg=F.key, where=b.where(), detail={"conditions_evaluated": n_eval})
 
 
 def check_windows(ctx, r, F, what, writes, unknown, gate_k, envs, b):
@@ -110,7 +193,14 @@ def binary(ctx, F, envs, r1, r2):
            "error path returns %s with %d writes" % (sym.fmt(er["ret"]), len(er["writes"])), cfg=F.key, where=b.where())
     vals = {nm: (env["assoc:SIZE_IN_BYTES"], env["SIZE_IN_BYTES"]) for nm, env in envs}
     ctx.ob(r1, ("FuzzyHashType::SIZE_IN_BYTES", "value"), all(a == b2 for a, b2 in vals.values()), "SIZE_IN_BYTES per variant %s" % vals, cfg=F.key, trivial=True)
-    check_windows(ctx, r2, F, "store_into_bytes", ok["writes"], ok["unknown"], K, envs, b)
+    for i_, o_ in enumerate([ok] + ok["alts"]):
+        check_windows(ctx, r2, F, "store_into_bytes" + ("#%d" % i_ if i_ else ""), o_["writes"], o_["unknown"], K, envs, b)
+        if i_:
+            ctx.ob(r1, ("store_into_bytes#%d" % i_, "gate+ok-value"), _gate_ok(o_["gate"], K, False, envs) and _ok_value(o_["ret"], K, envs),
+                   "another Ok path: gate %s, returns %s" % (o_["gate"], sym.fmt(o_["ret"])), cfg=F.key, where=b.where())
+    for i_, e_ in enumerate(er["alts"]):
+        ctx.ob(r1, ("store_into_bytes#%d" % (i_ + 1), "err-value"), e_["ret"] == er["ret"] and not e_["writes"] and not e_["unknown"] and _gate_ok(e_["gate"], K, True, envs),
+               "another error path: gate %s returns %s with %d writes" % (e_["gate"], sym.fmt(e_["ret"]), len(e_["writes"])), cfg=F.key, where=b.where())
 
 
 def text(ctx, F, envs, r1, r2):
@@ -131,7 +221,11 @@ def text(ctx, F, envs, r1, r2):
         ctx.ob(r1, ("store_into_str_bytes/" + mode, "ok-value"), _ok_value(ok["ret"], K, envs), "returns %s" % sym.fmt(ok["ret"]), cfg=F.key, where=b.where())
         ctx.ob(r1, ("store_into_str_bytes/" + mode, "err-value"), er["ret"] == ("agg", "adt:core::result::Result::Err", (("agg", "adt:errors::OperationError::BufferIsTooSmall", ()),)) and er["writes"] == 0,
                "error path returns %s with %d writes" % (sym.fmt(er["ret"]), er["writes"]), cfg=F.key, where=b.where())
-        check_windows(ctx, r2, F, "store_into_str_bytes/" + mode, ok["writes"], ok["unknown"], K, envs, b)
+        for i_, o_ in enumerate([ok] + ok["alts"]):
+            check_windows(ctx, r2, F, "store_into_str_bytes/" + mode + ("#%d" % i_ if i_ else ""), o_["writes"], o_["unknown"], K, envs, b)
+            if i_:
+                ctx.ob(r1, ("store_into_str_bytes/%s#%d" % (mode, i_), "gate+ok-value"), _gate_ok(o_["gate"], K, False, envs) and _ok_value(o_["ret"], K, envs),
+                       "another Ok path: gate %s, returns %s" % (o_["gate"], sym.fmt(o_["ret"])), cfg=F.key, where=b.where())
     vals = {nm: (env["assoc:LEN_IN_STR"], env["assoc:LEN_IN_STR_EXCEPT_PREFIX"], env["SIZE_IN_BYTES"]) for nm, env in envs}
     ctx.ob(r1, ("FuzzyHashType::LEN_IN_STR", "value"), all(a == 2 * c + 2 and b2 == 2 * c for a, b2, c in vals.values()),
            "(LEN_IN_STR, LEN_IN_STR_EXCEPT_PREFIX, SIZE_IN_BYTES) per variant %s; reference 2*bytes+2, 2*bytes" % vals, cfg=F.key)
